@@ -9,6 +9,7 @@ from kernel import term
 from kernel import theory
 from logic import context
 from util import unionfind
+from syntax import operator
 
 
 class TypeInferenceException(Exception):
@@ -298,8 +299,16 @@ def infer_printed_type(t):
                         to_replaceT = t.var_T
                 find_to_replace(t.body)
             elif t.is_comb():
-                find_to_replace(t.fun)
-                find_to_replace(t.arg)
+                op_data = operator.get_info_for_fun(t.head)
+                if op_data is not None and (op_data.arity == operator.UNARY or \
+                                            (op_data.arity == operator.BINARY and t.is_binop())):
+                    # Printed as an operator: its type cannot be displayed,
+                    # look only at the arguments.
+                    for arg in t.args:
+                        find_to_replace(arg)
+                else:
+                    find_to_replace(t.fun)
+                    find_to_replace(t.arg)
 
         find_to_replace(t)
         recover_const_type(t)
